@@ -1249,15 +1249,24 @@ fn run() {
     run_cases(run_case);
 }
 
-fn gen_case(out: &mut Out, rng: &mut Rng, id: &str, thorough: bool) {
+/// `dom` = the input-domain family (own PRNG stream, cases `d<n>`): NEGATIVE fees (maker rebates: `fees_percent` is a
+/// signed Decimal), fees of 0.5 % / 100 %, zero / fractional / exact-fit balances (quote 100 = 1 @ 100 without fees, quote
+/// 101 = 1 @ 100 at 1 %, quote 99 = 1 @ 100 at -1 %, base 1 / 0.5 = one sell), prices and quantities with many digits and of
+/// extreme but exact magnitude (1e-8, 1e-4, 1e12; every product stays within 28 digits), latencies 1 ms / 500 ms (below the 1 s request timeout), up to three open requests and two cancel requests per
+/// call, cancel requests that carry an exchange order id
+fn gen_case(out: &mut Out, rng: &mut Rng, id: &str, thorough: bool, dom: bool) {
     out.case(id);
     let k = rng.range(1, 3) as usize;
-    let quote = *rng.pick(&["300", "1000", "100000"]);
-    let base = *rng.pick(&["2", "10"]);
+    let quote = if dom { *rng.pick(&["0", "99", "100", "101", "250.5", "1000", "2000000000000"]) } else { *rng.pick(&["300", "1000", "100000"]) };
+    let base = if dom { *rng.pick(&["0", "0.5", "1", "2", "20"]) } else { *rng.pick(&["2", "10"]) };
     let feed = *rng.pick(&["iter", "stream", "stream", "stream"]);
     let trading = *rng.pick(&["on", "on", "off"]);
-    let fee = *rng.pick(&["0", "0", "0.01", "0.1"]);
-    let latency = *rng.pick(&[0u64, 0, 50, 50, 200]);
+    let fee = if dom { *rng.pick(&["-0.01", "-0.01", "-0.1", "-0.5", "0.005", "0.01", "1", "0"]) } else { *rng.pick(&["0", "0", "0.01", "0.1"]) };
+    let latency = if dom { *rng.pick(&[0u64, 1, 50, 500]) } else { *rng.pick(&[0u64, 0, 50, 50, 200]) };
+    let open_prices: &[&str] = if dom { &["50", "100", "100", "0.5", "99.99", "0.0001", "1000000000000"] } else { &["50", "100"] };
+    let open_qtys: &[&str] = if dom { &["1", "1", "2", "0.5", "20", "3", "0.00000001", "0.125"] } else { &["1", "1", "2", "0.5", "20"] };
+    let mkt_prices: &[&str] = if dom { &["50", "100", "101", "0.5", "99.99", "1000000000000"] } else { &["50", "100", "101"] };
+    let mkt_qtys: &[&str] = if dom { &["1", "2", "0.5", "20", "0.00000001"] } else { &["1", "2", "0.5", "20"] };
     out.line(format!("sys {feed} {trading} {k} {quote} {base} {fee} {latency}"));
     let cid_pool = [1u64, 2, 3, 4, 5, 6];
     let mut next_cid = 10u64;
@@ -1276,20 +1285,22 @@ fn gen_case(out: &mut Out, rng: &mut Rng, id: &str, thorough: bool) {
         // mostly fresh client order ids, sometimes one from a small pool (re-use)
         let cid = if rng.chance(75) { next_cid += 1; next_cid } else { *rng.pick(&cid_pool) };
         let side = if rng.chance(55) { "B" } else { "S" };
-        let price = *rng.pick(&["50", "100"]);
-        let qty = *rng.pick(&["1", "1", "2", "0.5", "20"]);
+        let price = *rng.pick(open_prices);
+        let qty = *rng.pick(open_qtys);
         recent.borrow_mut().push((i, cid));
         format!("o:0:{i}:{cid}:{side}:{price}:{qty}")
     };
     let gen_cancel = |rng: &mut Rng| -> String {
         let r = recent.borrow();
+        // dom: a third of the cancel requests carry an exchange order id (`RequestCancel::id = Some(..)`)
+        let oid = if dom && rng.chance(33) { format!(":{}", rng.range(1, 3)) } else { String::new() };
         if !r.is_empty() && rng.chance(70) {
             let (i, cid) = r[r.len() - 1 - (rng.below(r.len().min(3) as u64) as usize)];
-            format!("c:0:{i}:{cid}")
+            format!("c:0:{i}:{cid}{oid}")
         } else {
             let i = rng.below(k as u64);
             let cid = *rng.pick(&cid_pool);
-            format!("c:0:{i}:{cid}")
+            format!("c:0:{i}:{cid}{oid}")
         }
     };
     // 45 % of the cases stay inside the class the ops-level specification determines (no
@@ -1310,10 +1321,10 @@ fn gen_case(out: &mut Out, rng: &mut Rng, id: &str, thorough: bool) {
                     let mut line = String::from("mkt");
                     for _ in 0..n {
                         let i = rng.below(k as u64) as usize;
-                        let price = *rng.pick(&["50", "100", "101"]);
+                        let price = *rng.pick(mkt_prices);
                         if rng.chance(55) {
                             let side = if rng.chance(55) { "B" } else { "S" };
-                            let qty = *rng.pick(&["1", "2", "0.5", "20"]);
+                            let qty = *rng.pick(mkt_qtys);
                             line.push_str(&format!(" {i}:{price}:{side}:{qty}"));
                         } else {
                             line.push_str(&format!(" {i}:{price}"));
@@ -1325,9 +1336,13 @@ fn gen_case(out: &mut Out, rng: &mut Rng, id: &str, thorough: bool) {
                     let mut line = format!("call open {}", gen_open(rng));
                     if rng.chance(35) {
                         line.push_str(&format!(" {}", gen_open(rng)));
+                        if dom && rng.chance(40) {
+                            line.push_str(&format!(" {}", gen_open(rng)));
+                        }
                     }
                     out.line(line);
                 }
+                7 if dom && rng.chance(35) => out.line(format!("call cancel {} {}", gen_cancel(rng), gen_cancel(rng))),
                 7 => out.line(format!("call cancel {}", gen_cancel(rng))),
                 8 => out.line(format!("call close {}", gen_filter(rng))),
                 9 => out.line(format!("call cancel_orders {}", gen_filter(rng))),
@@ -1397,7 +1412,12 @@ fn generate(seed: u64, n_cases: usize, tier: &str) {
         }
     }
     for c in 0..n_cases {
-        gen_case(&mut out, &mut rng, &format!("r{}", c + 1), thorough);
+        gen_case(&mut out, &mut rng, &format!("r{}", c + 1), thorough, false);
+    }
+    // the input-domain family (own PRNG stream, so the cases above stay as they are): one case per 8 random ones
+    let mut drng = Rng::new(seed ^ 0x444f_4d45);
+    for c in 0..n_cases / 8 {
+        gen_case(&mut out, &mut drng, &format!("d{}", c + 1), thorough, true);
     }
     out.flush();
 }
